@@ -10,6 +10,7 @@ EXTRACTION_RULES = [
     "T3b closure parameters that are patterns: `|(a, b)| e` -> `|p: T| { let (a, b) = p; e }`",
     "T8 leaf types whose contents no unit reads are opaque external types",
     "T8b one field type (`Args.items: Box<dyn ExactSizeIterator<..>>`) replaced in the struct declaration by an opaque stand-in type with one assumed operation",
+    "T8c the implicit unsizing coercion of `Box::new(value)` into that field (Args::current_args) is made explicit as a call of an assumed function `ArgsItems::unsize` wrapped around the unchanged expression (ghost insertion listed under the unit)",
     "T9 the closure literal of construct!(a, b) / (a, b, c) is cut out of rustc's own macro expansion of a client crate",
     "T10 #[cfg(feature = ..)] on fn parameters, call arguments and fields is evaluated by the extractor for the configuration being generated",
     "T11 `for PAT in EXPR { B }` -> `{ let mut it = EXPR [or IntoIterator::into_iter(EXPR)]; loop { let PAT = match it.next() { Some(x) => x, None => break }; B } }` (the Rust reference's desugaring) where the unit says so",
@@ -107,8 +108,11 @@ prop("C10", "proof",
      ["ParseFlag::eval body (assumed contract)", "the state a failed ParseAdjacent hands back", "construct! first-failing-field (pending unit)"],
      note=VERUS_NOTE)
 prop("C11", "proof",
-     "exit_code table (stdout/completion -> 0, stderr -> 1) and run_subparser: a value only on success. The process-level part (run(), argv[0], printing, exit) has no contract in either tool.",
-     ["OptionParser::run in a real process, print_message, Args::current_args"],
+     "exit_code table (stdout/completion -> 0, stderr -> 1) and run_subparser: a value only on success. "
+     "Args::current_args (real body): the program name is the file name (Path::file_name, not the stem) of argv[0] when that is UTF-8 and absent otherwise, "
+     "and the arguments handed to the parser are argv[1..] in order; State::construct starts the command path as exactly that name. "
+     "The rest of the process-level part (run(): printing and process::exit) has no contract in either tool.",
+     ["OptionParser::run in a real process: print_message and process::exit", "what std's Path::file_name / OsStr::to_str compute (uninterpreted functions; only *which* of them is applied to argv[0] is proved)"],
      note=VERUS_NOTE)
 prop("C12", "proof",
      "item collection is proved: HelpItems::append_meta::go adds, for any metadata tree, exactly one entry per item (every item except a positional without help text; nothing for `hide`), in tree order, "
@@ -301,3 +305,8 @@ PROPS["C12"]["claim"] = PROPS["C12"]["explanation"] = PROPS["C12"]["explanation"
 PROPS["C09"]["claim"] = PROPS["C09"]["explanation"] = PROPS["C09"]["explanation"] + (
     " lemma.C09.separator_is_never_delivered: in the state State::construct builds and in every state reachable under the trait invariant, the first `--` is unavailable to every consumer, "
     "everything after it is a PosWord and nothing before it is.")
+
+# ---- session 3: process entry under contract; the value slot of an argument is part of C14
+PROPS["C14"]["claim"] = PROPS["C14"]["explanation"] = PROPS["C14"]["explanation"] + (
+    " Which item counts as 'the item being typed' for an argument's value completer is decided by State::take_arg -> ParseArgument::take_argument -> ParseArgument::eval; their contracts "
+    "(the value is the Word/ArgWord right after the leftmost matching name, never a PosWord or another name) are obligations of this check too.")
